@@ -9,9 +9,10 @@ LEVEL_TEXT = ("ConfStore.tla models the configuration as a tree of cells (inline
               "reflection (fields, pointer targets, slice elements, map values, values behind `any`), applies every operation "
               "to a fresh real Clone() and records what the original reads and whether memory is shared; TLC evaluates "
               "IndependentObs on every record, and RejectedObs on edits applied the way Core applies them")
-LEVEL_NOTE = ("one fully populated configuration (every pointer set, lists of 2 with spare capacity, maps of 2); operations per "
-              "cell kind from the spec's table; the rejected-edit corollary uses a fixed list of 29 edits applied with "
-              "Clone/Patch*/Validate as in core.go, not a running Core")
+LEVEL_NOTE = ("populated configurations in three container variants (lists of 2 with spare capacity and maps of 2; every list "
+              "and map empty but not nil; lists of zero length with capacity) plus validated ones (with paths; after the last "
+              "path was deleted); operations per cell kind from the spec's table; the rejected-edit corollary uses a fixed "
+              "list of 41 edits on two running configurations, applied with Clone/Patch*/Validate as in core.go, not a running Core")
 TECHNIQUE = "TLA+ spec checked by TLC; TLC-generated operation table replayed on the real Clone(); recorded observations validated by TLC"
 
 PKG = "./internal/conf/"
@@ -32,6 +33,10 @@ def run(ctx):
     ctx.set("spec_path_shapes", len(shapes))
     ctx.set("spec_operations", {k: sorted(v) for k, v in sorted(ops.items())})
     if ctx.thorough:
+        x = vf.tlc(ctx, "ConfStore", "ConfStore_emptyshared.cfg", workers=2, timeout=300, allow_violation=True)
+        if x.violated not in ("NoSharedCell", "CloneIndependent"):
+            raise vf.Infra("self-test: the named regression EmptyContainerSharedByClone (EmptyDeep=FALSE) is no longer detected")
+        ctx.set("selftest_regression_detected_empty", "EmptyContainerSharedByClone (EmptyDeep=FALSE) violates %s in the model" % x.violated)
         # layer 1 describes the fixed code (IfaceDeep=TRUE); the named regression, re-enabled, must be detected
         x = vf.tlc(ctx, "ConfStore", "ConfStore_ifaceshared.cfg", workers=2, timeout=300, allow_violation=True)
         if x.violated != "CloneIndependent":
@@ -58,10 +63,10 @@ def run(ctx):
             groups.setdefault((rec["target"], rec["through"], rec["top"], what), []).append(rec)
         else:
             diff = "; ".join(rec["diffAt"])
-            ctx.violation({"kind": "rejected", "edit": rec["edit"], "name": rec["name"], "body": rec["body"], "diffAt": diff},
-                          "rejected API edit %s(%s, %s) [%s] changed the running configuration at %s; the next, valid and unrelated "
-                          "edit %s then %s" % (
-                              rec["edit"], rec["name"], rec["body"], rec["error"], diff, rec.get("nextEdit"),
+            ctx.violation({"kind": "rejected", "base": rec["base"], "edit": rec["edit"], "name": rec["name"], "body": rec["body"], "diffAt": diff},
+                          "rejected API edit %s(%s, %s) [%s] on a running configuration with %s changed it at %s; the next, valid and "
+                          "unrelated edit %s then %s" % (
+                              rec["edit"], rec["name"], rec["body"], rec["error"], rec["base"], diff, rec.get("nextEdit"),
                               ("is refused: " + rec["nextEditError"]) if rec.get("nextEditError")
                               else "makes the running paths differ at %s" % rec.get("nextEditPathsDiffer")))
     for (target, through, top, what), rs in sorted(groups.items()):
@@ -90,11 +95,14 @@ def run(ctx):
     ctx.set("edits_rejected", len([x for x in rej if x["rejected"]]))
     ctx.set("real_path_shapes", sh["realShapes"])
     ctx.set("spec_shapes_not_in_real_types", sh["specShapesNotInRealTypes"])
-    for x in recs:
-        if x["rec"] == "cloneequal" and not x["equal"]:
-            ctx.note("%s (%s configuration): the clone does not read the same as the original (statement is about independence; DRIFT): %s"
-                     % (x["target"], x["origin"], x["firstDifference"]))
-            ctx.add("drift_events", 1)
+    uneq = [x for x in recs if x["rec"] == "cloneequal" and not x["equal"]]
+    if uneq:
+        only_regexp = all('re("")' in x["firstDifference"] for x in uneq)
+        ctx.note("%d of %d clones do not read the same as their original (the statement is about independence; DRIFT)%s: e.g. %s %s"
+                 % (len(uneq), len([x for x in recs if x["rec"] == "cloneequal"]),
+                    ", each time only because the clone of a *regexp.Regexp is an empty regexp" if only_regexp else "",
+                    uneq[0]["target"], uneq[0]["firstDifference"]))
+        ctx.set("drift_events", len(uneq))
     ctx.sample({k: muts[len(muts) // 2][k] for k in ("target", "path", "op", "readBefore", "readAfter", "shared")})
     ctx.sample({k: rej[0][k] for k in ("edit", "name", "body", "rejected", "error", "diffAt")})
     ctx.assume("Core applies an API edit as conf.Clone(); Patch*/AddPath/ReplacePath/RemovePath; Validate and swaps only on success "
